@@ -67,113 +67,204 @@ func ruleRangeErrNotDropped(r *Run) {
 				}
 				continue
 			}
-			// spilled to a local (captured by a closure / address taken): follow the cell instead
-			var cell *ssa.Alloc
-			for _, ref := range *ev.Referrers() {
-				if st, ok := ref.(*ssa.Store); ok && st.Val == ev {
-					if al, ok := st.Addr.(*ssa.Alloc); ok {
-						cell = al
-					}
-				}
-			}
 			n++
-			web := map[ssa.Value]bool{ev: true}
-			if cell == nil {
-				for changed := true; changed; {
-					changed = false
-					for v := range web {
-						if v.Referrers() == nil {
-							continue
-						}
-						for _, ref := range *v.Referrers() {
-							if phi, ok := ref.(*ssa.Phi); ok && !web[phi] {
-								web[phi] = true
-								changed = true
-							}
-						}
-					}
-				}
-			}
-			inWebPhi := func(v ssa.Value) bool {
-				_, isPhi := v.(*ssa.Phi)
-				return web[v] && (isPhi || v == ev)
-			}
-			usesErr := func(v ssa.Value) bool {
-				if inWebPhi(v) {
-					return true
-				}
-				if cell != nil {
-					if u, ok := v.(*ssa.UnOp); ok && u.Op == token.MUL && u.X == ssa.Value(cell) {
-						return true
-					}
-				}
-				return false
-			}
-			looked := func(in ssa.Instruction) bool {
-				switch x := in.(type) {
-				case *ssa.If:
-					if bo, ok := x.Cond.(*ssa.BinOp); ok && (usesErr(bo.X) || usesErr(bo.Y)) {
-						return true
-					}
-				case *ssa.BinOp:
-					return usesErr(x.X) || usesErr(x.Y)
-				case ssa.CallInstruction:
-					if in == ssa.Instruction(c) {
-						return false
-					}
-					for _, a := range x.Common().Args {
-						if usesErr(a) {
-							return true
-						}
-						if mi, ok := a.(*ssa.MakeInterface); ok && usesErr(mi.X) {
-							return true
-						}
-					}
-				case *ssa.MakeInterface:
-					return usesErr(x.X)
-				case *ssa.Send:
-					return usesErr(x.X)
-				case *ssa.Store:
-					// handed to another variable / field
-					return usesErr(x.Val) && x.Addr != ssa.Value(cell)
-				case *ssa.Return:
-					for _, rv := range x.Results {
-						if usesErr(rv) {
-							return true
-						}
-					}
-				}
-				return false
-			}
-			dropped := func(in ssa.Instruction) bool {
-				switch x := in.(type) {
-				case *ssa.Return:
-					return true // reached without having looked at the error (looked() is the barrier)
-				case *ssa.Store:
-					if cell != nil && x.Addr == ssa.Value(cell) && x.Val != ev {
-						return true
-					}
-				case *ssa.Phi:
-					_ = x
-				}
-				if cell == nil {
-					// another definition joins the web: an instruction whose value is a non-phi member's edge
-					if v, ok := in.(ssa.Value); ok && v != ev {
-						if v.Referrers() != nil {
-							for _, ref := range *v.Referrers() {
-								if phi, ok := ref.(*ssa.Phi); ok && web[phi] {
-									return true
-								}
-							}
-						}
-					}
-				}
-				return false
-			}
-			p := findPath(f, c, looked, dropped, allEdges)
+			p := errDropPath(f, c, ev)
 			r.check(p == nil, construct, "on every path the error is tested, passed on or returned before err is assigned again",
 				"the error of the range scan can be lost: on some path the variable is assigned again (or the function returns) before the error was looked at, so a failed scan ends as a success with a partial answer", w.pos(c.Pos()), w.renderPath(p)...)
 		}
 	}
 	r.check(n >= 20, "datatype:range-call-errors", fmt.Sprintf("%d range calls examined", n), "too few: rule needs review", "-")
+}
+
+// errDropPath: a path from call c (whose error value is ev) to a point where the error is lost: the
+// variable holding it is assigned again, or the function returns something else, before the error was
+// tested, passed on or returned.  nil when there is none.
+func errDropPath(f *ssa.Function, c ssa.CallInstruction, ev ssa.Value) []ssa.Instruction {
+	// spilled to a local (captured by a closure / address taken): follow the cell instead
+	var cell *ssa.Alloc
+	for _, ref := range *ev.Referrers() {
+		if st, ok := ref.(*ssa.Store); ok && st.Val == ev {
+			if al, ok := st.Addr.(*ssa.Alloc); ok {
+				cell = al
+			}
+		}
+	}
+	web := map[ssa.Value]bool{ev: true}
+	if cell == nil {
+		for changed := true; changed; {
+			changed = false
+			for v := range web {
+				if v.Referrers() == nil {
+					continue
+				}
+				for _, ref := range *v.Referrers() {
+					if phi, ok := ref.(*ssa.Phi); ok && !web[phi] {
+						web[phi] = true
+						changed = true
+					}
+				}
+			}
+		}
+	}
+	inWebPhi := func(v ssa.Value) bool {
+		_, isPhi := v.(*ssa.Phi)
+		return web[v] && (isPhi || v == ev)
+	}
+	usesErr := func(v ssa.Value) bool {
+		if inWebPhi(v) {
+			return true
+		}
+		if cell != nil {
+			if u, ok := v.(*ssa.UnOp); ok && u.Op == token.MUL && u.X == ssa.Value(cell) {
+				return true
+			}
+		}
+		return false
+	}
+	// the variable is read by a closure (a deferred reporter, a sentinel compared inside a callback):
+	// its uses cannot be followed along the paths of this function
+	if cell != nil {
+		for _, ref := range *cell.Referrers() {
+			if mc, ok := ref.(*ssa.MakeClosure); ok {
+				if cl, ok := mc.Fn.(*ssa.Function); ok {
+					for i, b := range mc.Bindings {
+						if b != ssa.Value(cell) {
+							continue
+						}
+						for _, r2 := range *cl.FreeVars[i].Referrers() {
+							if ld, ok := r2.(*ssa.UnOp); ok && ld.Op == token.MUL {
+								return nil
+							}
+						}
+					}
+				}
+			}
+		}
+	}
+	looked := func(in ssa.Instruction) bool {
+		switch x := in.(type) {
+		case *ssa.If:
+			if bo, ok := x.Cond.(*ssa.BinOp); ok && (usesErr(bo.X) || usesErr(bo.Y)) {
+				return true
+			}
+		case *ssa.BinOp:
+			return usesErr(x.X) || usesErr(x.Y)
+		case ssa.CallInstruction:
+			if in == ssa.Instruction(c) {
+				return false
+			}
+			for _, a := range x.Common().Args {
+				if usesErr(a) {
+					return true
+				}
+				if mi, ok := a.(*ssa.MakeInterface); ok && usesErr(mi.X) {
+					return true
+				}
+			}
+		case *ssa.MakeInterface:
+			return usesErr(x.X)
+		case *ssa.Send:
+			return usesErr(x.X)
+		case *ssa.Store:
+			// handed to another variable / field
+			return usesErr(x.Val) && x.Addr != ssa.Value(cell)
+		case *ssa.Return:
+			for _, rv := range x.Results {
+				if usesErr(rv) {
+					return true
+				}
+			}
+		}
+		return false
+	}
+	dropped := func(in ssa.Instruction) bool {
+		switch x := in.(type) {
+		case *ssa.Return:
+			// reached without having looked at the error (looked() is the barrier); leaving with another,
+			// provably non-nil error is still a refusal
+			return !isErrorExit(x)
+		case *ssa.Store:
+			if cell != nil && x.Addr == ssa.Value(cell) && x.Val != ev {
+				return true
+			}
+		case *ssa.Phi:
+			_ = x
+		}
+		if cell == nil {
+			// another definition joins the web: an instruction whose value is a non-phi member's edge
+			if v, ok := in.(ssa.Value); ok && v != ev {
+				if v.Referrers() != nil {
+					for _, ref := range *v.Referrers() {
+						if phi, ok := ref.(*ssa.Phi); ok && web[phi] {
+							return true
+						}
+					}
+				}
+			}
+		}
+		return false
+	}
+	return findPath(f, c, looked, dropped, allEdges)
+}
+
+// ---------------------------------------------------------------------------------------------
+// R20.27 — a validation error that was constructed is also returned
+
+func init() {
+	register(ruleDef{ID: "R20.27", Prop: "C20", Tier: "quick", Floor: 50,
+		Title: "a request that is found invalid is refused: an error built with fmt.Errorf / errors.New and assigned to the function's error variable is tested, passed on or returned before that variable is assigned again (`if bad { err = … }` without a return lets the request go on and overwrites the verdict)",
+		Fn:    ruleConstructedErrNotDropped})
+	register(ruleDef{ID: "R12.9", Prop: "C12", Tier: "quick", Floor: 50,
+		Title: "an allocation request that is found invalid does not allocate (shared with R20.27)",
+		Fn:    ruleConstructedErrNotDropped})
+}
+
+func ruleConstructedErrNotDropped(r *Run) {
+	w := r.W
+	n := 0
+	for _, f := range w.RepoFuncs {
+		if len(f.Blocks) == 0 || strings.HasSuffix(w.fposFile(f), "_test.go") {
+			continue
+		}
+		p := relPkg(pkgPathOf(f))
+		if !strings.HasPrefix(p, "datatype/") && p != "datastore" && p != "server" && p != "dvid" && !strings.HasPrefix(p, "storage") {
+			continue
+		}
+		k := 0
+		for _, c := range calls(f) {
+			o := calleeObj(c)
+			if o == nil || o.Pkg() == nil {
+				continue
+			}
+			if !(o.Pkg().Path() == "fmt" && o.Name() == "Errorf") && !(o.Pkg().Path() == "errors" && o.Name() == "New") {
+				continue
+			}
+			cv, ok := c.(*ssa.Call)
+			if !ok || cv.Referrers() == nil {
+				continue
+			}
+			// only errors kept in a variable that lives on: stored to a cell or flowing into a phi
+			// (a value returned or passed directly is looked at by construction)
+			kept := false
+			for _, ref := range *cv.Referrers() {
+				switch x := ref.(type) {
+				case *ssa.Store:
+					if _, isAl := x.Addr.(*ssa.Alloc); isAl && x.Val == ssa.Value(cv) {
+						kept = true
+					}
+				case *ssa.Phi:
+					kept = true
+				}
+			}
+			if !kept {
+				continue
+			}
+			n++
+			k++
+			p := errDropPath(f, c, cv)
+			r.check(p == nil, fmt.Sprintf("%s:constructed-error#%d:returned-or-tested", fname(f), k), "the error is looked at before the variable is reused",
+				"an error is constructed and assigned, but on some path the variable is assigned again (or the function returns something else) before anyone looked at it: the condition the error describes does not stop the request", w.pos(c.Pos()), w.renderPath(p)...)
+		}
+	}
+	r.check(n >= 50, "repo:constructed-errors-kept-in-variables", fmt.Sprintf("%d constructed errors kept in variables", n), "too few: rule needs review", "-")
 }
